@@ -277,6 +277,10 @@ def classify_boxes(boxes, f, d):
         fa, fb = max(effs[a][0], effs[b][0]), min(effs[a][1], effs[b][1])
         da_, db_ = max(effs[a][2], effs[b][2]), min(effs[a][3], effs[b][3])
         area = (fb - fa > 0) and (db_ - da_ > 0)
+        # a single-row box (dmin == dmax) lying strictly inside the other box's direction range: the intersection is the row itself,
+        # not a contact between edges
+        if (fb - fa > 0) and (db_ == da_) and any(e[2] < da_ < e[3] for e in (effs[a], effs[b])):
+            area = True
         if shared and area:
             return "must-raise", masks
         shared_any |= shared
@@ -833,8 +837,8 @@ def build_items(tier, seed, parts):
 
         for gname in (("g44", "g44z") if thorough else ("g44",)):
             f, d, _ = G[gname]
-            # quick tier: no degenerate (dmin == dmax) boxes in the pair alphabet (they are in the single-box space)
-            A = box_alphabet(gname, coarse_vals(f), coarse_vals(d), None if thorough else (lambda x: x[0] is None or x[0] != x[1]))
+            # single-row (dmin == dmax) boxes are part of the pair alphabet: inside another box they overlap it, on its edge they touch
+            A = box_alphabet(gname, coarse_vals(f), coarse_vals(d), None)
             # unordered pairs; every other one is passed in reverse order (the order only decides the part index)
             pairs = [[a, b] if n % 2 == 0 else [b, a] for n, (a, b) in enumerate(itertools.combinations(A, 2))]
             pairs.sort(key=lambda s: sum(nexplicit(b) for b in s))
